@@ -85,6 +85,8 @@ pub fn string_pool() -> Vec<&'static str> {
     vec![
         "", "a", "b", "ab", "A", " x ", "äb", "日本", "ß", "İ", "é", "😀", "a\"b\\c", "/*", "//", "0", "ΟΔΥΣΣΕΥΣ", "ΣΑΣ Σ.", "ǅŉﬁ",
         "\u{3000}price\u{a0}", "ıſɐ\u{212a}ẞ", "\u{e000}", "\u{ffff}x", "\u{10000}", "e\u{301}",
+        // text that other languages would interpolate, comment markers inside text, a trailing backslash, a number
+        "{a}", "v{x}${y}", "a//b", "c:\\", "3",
     ]
 }
 
@@ -159,7 +161,8 @@ pub fn random_value(r: &mut Rng, depth: usize) -> RV {
     }
 }
 
-pub const STRING_CHARS: [char; 47] = [
+pub const STRING_CHARS: [char; 52] = [
+    '{', '}', ':', '?', '$',
     '”', '“', '’', '＂', '\u{200b}', '\u{feff}',
     'a', 'b', 'Z', '0', '9', ' ', '\t', '\n', '\r', '"', '\\', '/', '*', '+', '-', '(', ')', ',', ';', '=', '!', '&', '|',
     '<', '>', '%', '^', '.', 'e', 'x', '_', 'ä', 'ß', 'İ', '日', '😀', '\u{301}', '\u{0}', '\u{a0}', '\u{2028}', '#',
